@@ -6455,3 +6455,53 @@ func (p *Prog) noSharedScratch() []Ob {
 	}
 	return []Ob{ob}
 }
+
+// ---------------------------------------------------------------------------
+// R11 L9b RECOVER-LOOKS-AT-THE-INDEX (C11, C07, C05): Segment.Recover reports success only after it read
+// the stored index (and so compared it, or found it missing): no outcome of the log scan - not even
+// "nothing could be restored" - lets it return before that.
+func (p *Prog) recoverLooksAtTheIndex() []Ob {
+	rec := p.methodOf(p.R.Segment, "Recover")
+	ob := Ob{Rule: "R11", Inst: "L9b:(segment.Segment).Recover:looks-at-the-index", Props: []string{"C11", "C07", "C05"}, Pos: "-", Func: funcLabel(rec), Nontrivial: true}
+	if rec == nil || rec.Blocks == nil {
+		ob.Status, ob.Msg = Undecided, "Segment.Recover not found"
+		return []Ob{ob}
+	}
+	ob.Pos = p.posStr(rec.Pos())
+	ea := p.ErrAtomsCached()
+	var reads []*ssa.Call
+	for _, b := range rec.Blocks {
+		for _, ins := range b.Instrs {
+			if c, ok := ins.(*ssa.Call); ok && calleeName(c.Common()) == pkgIndex+".Read" {
+				reads = append(reads, c)
+			}
+		}
+	}
+	if len(reads) == 0 {
+		ob.Status, ob.Msg = Undecided, "Segment.Recover does not read the stored index"
+		return []Ob{ob}
+	}
+	var bad []string
+	n := 0
+	for _, rt := range returnsOf(rec) {
+		if rt.Block() == rec.Recover || ea.isFailureReturn(rec, rt) {
+			continue
+		}
+		n++
+		behind := false
+		for _, c := range reads {
+			if c.Block().Dominates(rt.Block()) {
+				behind = true
+			}
+		}
+		if !behind {
+			bad = append(bad, p.at(rt)+": Recover can return without an error before it has looked at the stored index")
+		}
+	}
+	if len(bad) > 0 {
+		ob.Status, ob.Msg, ob.Path = Violated, "a recovery can end without comparing the index file with the log: index entries of records that were lost stay in front of everything the writer appends afterwards", bad
+	} else {
+		ob.Status, ob.Msg = Discharged, fmt.Sprintf("%d non-failing return(s), each behind the read of the stored index", n)
+	}
+	return []Ob{ob}
+}
